@@ -23,8 +23,26 @@ package store
 //@ func (v Value) Equal(w Value) (res bool)
 //@   ensures sem: res == veq(int(v.Type), bytes(v.RawMessage), bytes(v.Inner), v.RID, int(w.Type), bytes(w.RawMessage), bytes(w.Inner), w.RID)
 //@
+//@ # the classification of a JSON text as the protocol defines it (0: invalid, otherwise the ValueType): by its first
+//@ # non-blank character, and for an object by the members rid / soft / action / data that encoding/json decodes from it
+//@ spec func fnb(s string, i int) int
+//@   decreases len(s) - i
+//@   = ite(i < 0 || i >= len(s), -1, ite(ws(s[i]), fnb(s, i+1), s[i]))
+//@ spec func vclass(s string) int
+//@   = ite(fnb(s, 0) == '[', 0, ite(fnb(s, 0) != '{', 1, ite(!jvObj(s), 0,
+//@     ite(jvHasRID(s), ite(jvHasAction(s) || jvHasData(s) || jvRIDn(s) == 0 || !ridvalid(strOf(jvRIDa(s), jvRIDn(s))), 0, ite(jvSoft(s), 3, 2)),
+//@     ite(jvHasAction(s), ite(jvHasData(s) || strOf(jvActa(s), jvActn(s)) != "delete", 0, 5),
+//@     ite(jvHasData(s), ite(jvData0(s) == '{' || jvData0(s) == '[', 4, 1), 0))))))
+//@ # vtxt: the text that is classified: the copy of the input kept by the value (byte for byte the input: post.same)
+//@ ghostvar vtxt string
+//@
 //@ func (v *Value) UnmarshalJSON(data []byte) (err error)
 //@   requires v != nil
+//@   ghost call RawMessage.UnmarshalJSON#1 after :: set vtxt = bytes(v.RawMessage)
+//@   ensures same: vtxt == old(bytes(data))
+//@   ensures class.ok: isNil(err) == (vclass(vtxt) != 0)
+//@   ensures class.type: imp(isNil(err), int(v.Type) == vclass(vtxt))
+//@   ensures class.rid: imp(isNil(err) && (vclass(vtxt) == 2 || vclass(vtxt) == 3), v.RID == strOf(jvRIDa(vtxt), jvRIDn(vtxt)))
 //@   requires nonblank: exists(k, 0, len(data), !ws(data[k]))
 //@   requires noalias0: ref(v.RawMessage) != ref(data) && ref(data) != 0 && ref(data) < nextRef()
 //@   modifies all
@@ -32,6 +50,7 @@ package store
 //@   callsite Unmarshal#1 json.UnmarshalValueObject
 //@   ensures copied: imp(isNil(err), ref(v.RawMessage) != ref(data) || len(data) == 0)
 //@   loop 1 invariant 0 <= i && i < len(v.RawMessage) && exists(k, i, len(v.RawMessage), !ws(v.RawMessage[k]))
+//@   loop 1 invariant first: fnb(vtxt, 0) == fnb(vtxt, i)
 //@
 //@ func (v Value) MarshalJSON() (out []byte, err error)
 //@   modifies alloc, bytes
